@@ -51,6 +51,7 @@ class Translator:
         self.rprops = {k: self._prop_expr(m) for k, m in self.classes["UKVRecord"].items() if self._is_prop(m)}
         self._check_unpack_read()
         self.tmp = 0
+        self.ren = {}
         self.defined = set()
 
     # ---------------------------------------------------------------- helpers
@@ -123,7 +124,7 @@ class Translator:
         if isinstance(e, ast.Name):
             if e.id == "self":
                 raise Refuse("bare self")
-            return f"(ELocal {cq_str(e.id)})"
+            return f"(ELocal {cq_str(self.ren.get(e.id, e.id))})"
         if isinstance(e, ast.Attribute):
             if isinstance(e.value, ast.Name) and e.value.id in self.structs and e.attr == "size":
                 return f"(EConst (VInt {self.structs[e.value.id]}))"
@@ -177,6 +178,15 @@ class Translator:
             return f"(ENot {X(e.operand)})"
         if isinstance(e, ast.IfExp):
             return f"(EIfExp {X(e.test)} {X(e.body)} {X(e.orelse)})"
+        if isinstance(e, ast.Compare) and len(e.ops) > 1:
+            # a < b <= c  ==  (a < b) and (b <= c)   (b is a name, attribute or constant here: evaluating it twice is the same)
+            parts, left = [], e.left
+            for op, right in zip(e.ops, e.comparators):
+                if not isinstance(left, (ast.Name, ast.Attribute, ast.Constant)) and left is not e.left:
+                    raise Refuse("chained comparison over a compound middle operand")
+                parts.append(ast.Compare(left=left, ops=[op], comparators=[right]))
+                left = right
+            return self.ex(ast.BoolOp(op=ast.And(), values=parts), rec_self)
         if isinstance(e, ast.Compare) and len(e.ops) == 1:
             a, b, op = e.left, e.comparators[0], e.ops[0]
             if isinstance(op, ast.Eq):
@@ -185,6 +195,12 @@ class Translator:
                 return f"(ELt {X(a)} {X(b)})"
             if isinstance(op, ast.Gt):
                 return f"(EGt {X(a)} {X(b)})"
+            if isinstance(op, ast.LtE):
+                return f"(ENot (EGt {X(a)} {X(b)}))"      # on integers
+            if isinstance(op, ast.GtE):
+                return f"(ENot (ELt {X(a)} {X(b)}))"
+            if isinstance(op, ast.NotEq):
+                return f"(ENot (EEq {X(a)} {X(b)}))"
             if isinstance(op, ast.In) and isinstance(b, (ast.Set, ast.Tuple, ast.List)) and b.elts and all(isinstance(x, ast.Constant) for x in b.elts):
                 out = f"(EEq {X(a)} {X(b.elts[-1])})"                     # x in {c1, c2}: a disjunction of equalities
                 for c in reversed(b.elts[:-1]):
@@ -236,7 +252,7 @@ class Translator:
     def assign_to(self, tgt):
         """-> function(expr_text) -> [stmts]"""
         if isinstance(tgt, ast.Name):
-            return lambda e: [f"(SAssign {cq_str(tgt.id)} {e})"]
+            return lambda e: [f"(SAssign {cq_str(self.ren.get(tgt.id, tgt.id))} {e})"]
         if isinstance(tgt, ast.Attribute) and self._is_self(tgt.value):
             if tgt.attr not in DATA_ATTRS:
                 raise Refuse(f"assignment to self.{tgt.attr}")
@@ -275,7 +291,15 @@ class Translator:
         if isinstance(n, ast.If):
             return [f"(SIf {self.ex(n.test)} {self.block(n.body)} {self.block(n.orelse)})"]
         if isinstance(n, ast.AugAssign) and isinstance(n.op, ast.Add) and isinstance(n.target, ast.Name):
-            return [f"(SAssign {cq_str(n.target.id)} (EAdd (ELocal {cq_str(n.target.id)}) {self.ex(n.value)}))"]
+            x = self.ren.get(n.target.id, n.target.id)
+            return [f"(SAssign {cq_str(x)} (EAdd (ELocal {cq_str(x)}) {self.ex(n.value)}))"]
+        if isinstance(n, ast.Assign) and len(n.targets) > 1:
+            # a = b = value : the value once, then the targets from left to right
+            t = self.fresh()
+            out = self.value_into(lambda e: [f"(SAssign {cq_str(t)} {e})"], n.value)
+            for tgt in n.targets:
+                out += self.assign_to(tgt)(f"(ELocal {cq_str(t)})")
+            return out
         if isinstance(n, ast.Assign) and len(n.targets) == 1:
             tgt, val = n.targets[0], n.value
             if isinstance(tgt, ast.Attribute) and self._is_stream(tgt):          # self._stream = self.path.open("rb")
@@ -321,7 +345,7 @@ class Translator:
                 return [f"(SCall {name}_prog)"]
             raise Refuse(f"call statement {ast.dump(n.value)[:100]}")
         if isinstance(n, ast.While) and not n.orelse and isinstance(n.test, ast.NamedExpr) and isinstance(n.test.target, ast.Name):
-            x = n.test.target.id
+            x = self.ren.get(n.test.target.id, n.test.target.id)
             cond = self.value_into(lambda e: [f"(SAssign {cq_str(x)} {e})"], n.test.value)
             return [f"(SWhile {self.seq(cond)} {cq_str(x)} {self.block(n.body)})"]
         if isinstance(n, ast.Match):
@@ -345,11 +369,40 @@ class Translator:
             out += self.st(s)
         return self.seq(out)
 
+    def local_names(self, m):
+        """local variables in order of first binding (parameters keep their names: they are part of the API);
+        they are renamed L0, L1, ... so that renaming a local in the source changes nothing here"""
+        params = {a.arg for a in m.args.args}
+        order = []
+
+        def bind(t):
+            if isinstance(t, ast.Name) and t.id not in params and t.id not in order:
+                order.append(t.id)
+            elif isinstance(t, (ast.Tuple, ast.List)):
+                for e in t.elts:
+                    bind(e)
+
+        class V(ast.NodeVisitor):
+            def visit_Assign(v, n):
+                v.visit(n.value)
+                for t in n.targets:
+                    bind(t)
+
+            def visit_AugAssign(v, n):
+                v.visit(n.value); bind(n.target)
+
+            def visit_NamedExpr(v, n):
+                v.visit(n.value); bind(n.target)
+        V().visit(m)
+        return {x: f"L{i}" for i, x in enumerate(order)}
+
     def method(self, name):
         m = self.classes["UKVFile"].get(name)
         if m is None:
             raise Refuse(f"method {name} not found")
         self.tmp = 0                      # temporaries are numbered per method
+        self.ren = self.local_names(m)
+        self.last_ren = dict(self.ren)
         out = self.block(self._body(m)), [a.arg for a in m.args.args[1:]]
         self.defined.add(name)
         return out
@@ -379,7 +432,7 @@ def translate(repo):
             out.append('Definition keys_expr : expr := EAttr "_toc".     (* keys(): return self._toc.keys() *)')
             continue
         body, params = T.method(name)
-        out.append(f"(* def {name}(self{''.join(', ' + p for p in params)}) *)")
+        out.append(f"(* def {name}(self{''.join(', ' + p for p in params)})   locals: {', '.join(v + ' = ' + k for k, v in T.last_ren.items()) or '-'} *)")
         out.append(f"Definition {name}_params : list string := [{'; '.join(cq_str(p) for p in params)}].")
         out.append(f"Definition {name}_prog : stmt :=\n  {body}.\n")
     return "\n".join(out) + "\n"
